@@ -102,6 +102,29 @@ def _drive(case, doc):
     same = copy.deepcopy(docs)
     o["same_strict"] = _load(lambda: SigmaCollection.from_dicts(same, resolve_references=resolve), lambda x: [])
     o["same_collect"] = _load(lambda: SigmaCollection.from_dicts(same, collect_errors=True, resolve_references=resolve), coll_errors)
+    # ... and through SigmaCollection.load_ruleset (one file holding the documents)
+    import os, tempfile, yaml
+
+    def ruleset(collect):
+        # (the same path for both loads: error texts name the file)
+        path = os.path.join(tempfile.gettempdir(), f"verif_c07_{os.getpid()}.yml")
+        try:
+            with open(path, "w") as f:
+                yaml.safe_dump_all(docs, f)
+            return SigmaCollection.load_ruleset([path], collect_errors=collect, resolve_references=resolve)
+        finally:
+            os.unlink(path)
+
+    try:
+        yaml.safe_dump_all(docs)
+        dumpable = True
+    except Exception:  # noqa: BLE001  (documents with values YAML cannot write are not files)
+        dumpable = False
+    if dumpable:
+        o["file_strict"] = _load(lambda: ruleset(False), lambda x: [])
+        o["file_collect"] = _load(lambda: ruleset(True), coll_errors)
+    else:
+        o["file_strict"], o["file_collect"] = o["coll_strict"], o["coll_collect"]
     if case["kind"] in ("rule", "corr", "filter"):
         cls = {"rule": SigmaRule, "corr": SigmaCorrelationRule, "filter": SigmaFilter}[case["kind"]]
         o["direct_strict"] = _load(lambda: cls.from_dict(copy.deepcopy(doc)), lambda x: [])
